@@ -114,9 +114,17 @@ class Inliner:
             return expr
         e = copy.deepcopy(expr)
 
+        shadow = set()
+        for c in ast.walk(e):
+            if isinstance(c, (ast.ListComp, ast.SetComp, ast.DictComp, ast.GeneratorExp)):
+                for g in c.generators:
+                    shadow |= {x.id for x in ast.walk(g.target) if isinstance(x, ast.Name)}
+            elif isinstance(c, ast.NamedExpr) and isinstance(c.target, ast.Name):
+                shadow.add(c.target.id)
+
         class Sub(ast.NodeTransformer):
             def visit_Name(s, n: ast.Name):
-                if isinstance(n.ctx, ast.Load) and n.id not in stop and n.id not in self.mutated:
+                if isinstance(n.ctx, ast.Load) and n.id not in stop and n.id not in self.mutated and n.id not in shadow:
                     d = self.reaching(n.id, at)
                     if d is not None:
                         dst = self.stmt_of_value(d)
